@@ -14,6 +14,8 @@ Monitor clauses judged directly on the implementation's line:
   * `accept`       a side accepts ⇔ the peer's public value is acceptable and its work meets
                    `min bits 24` leading zero bits of SHA-256 over the handshake preimage
   * `ident`        a node's scalar lies in [2, p−2] and its public value is `g^scalar mod p`
+  * `key-stale`    (histories) after every accepted handshake the held key is the one derived from the
+                   public keys of THAT handshake — also the n-th for a peer id (`C12.key_replaced`)
   * `modexp`, `public`  equal to `b^e mod m` / `g^a mod p` (through the model, proved equal: `modexp_spec`)
   * `dh`           both sides derive the same secret from each other's public value
   * `material-asymmetric` / `material`  the key material is the same in both orders (and is the sorted pair)
@@ -56,7 +58,80 @@ def specAccepts (selfId : List UInt8) (bits : Nat) (peer : List UInt8) (pub nonc
   decide (1 < pub ∧ pub < Spec.Kex.p) &&
   decide (Spec.Pow.capped bits ≤ Spec.Pow.lz (sha (Pow.encHandshake ⟨peer, selfId, pub⟩ nonce)))
 
-def step (_ : Unit) (tok : List String) (_line : String) (impl : Option String) : Unit × String × String :=
+/-- driver state for the history ops: named nodes (model state + id token) and a logical clock.
+    The harness runs in real time with cooldowns of 0 s ("always outside") or hours ("always inside");
+    the logical clock advances 1 ns per op, which orders the same way. -/
+structure St where
+  nodes : List (String × NodeState) := []
+  tick : Int := 0
+deriving Inhabited
+
+def St.find (st : St) (name : String) : Option NodeState := (st.nodes.find? (·.1 == name)).map (·.2)
+def St.set (st : St) (name : String) (n : NodeState) : St :=
+  { st with nodes := (name, n) :: st.nodes.filter (·.1 != name) }
+
+def stepHistory (st : St) (tok : List String) (impl : Option String) : Option (St × String × String) :=
+  let st := { st with tick := st.tick + 1 }
+  match tok with
+  | ["node", name, id, scalar, bits, cooldown] =>
+    match scalar.toNat?, bits.toNat?, cooldown.toInt? with
+    | some s, some b, some cd =>
+      let n := NodeState.fresh ⟨idBytes id, u32 s⟩ (b % 256) (cd * 1000000000)
+      some (st.set name n, s!"pub={n.self.pub}", "ok")
+    | _, _, _ => none
+  | ["mutual", x, y] =>
+    match st.find x, st.find y with
+    | some X, some Y =>
+      if x == y then none else
+      let nY := handshakeWork Y.self.peerId Y.self.pub Y.bits X.self.peerId
+      let nX := handshakeWork X.self.peerId X.self.pub X.bits Y.self.peerId
+      let rX := match nY with
+        | some n => performHandshakeSt sha hmac X st.tick Y.self.peerId Y.self.pub n
+        | none => (X, false)
+      let rY := match nX with
+        | some n => performHandshakeSt sha hmac Y st.tick X.self.peerId X.self.pub n
+        | none => (Y, false)
+      let kX := rX.1.sessionKeyOf Y.self.peerId
+      let kY := rY.1.sessionKeyOf X.self.peerId
+      let out := s!"pX={X.self.pub} pY={Y.self.pub} nY={nonceStr nY} nX={nonceStr nX} okX={b01 rX.2} okY={b01 rY.2} kX={keyStr kX} kY={keyStr kY}"
+      -- the key the property demands: derived from the CURRENT two public keys
+      let current := hexB (sessionKey sha hmac X.self.scalar X.self.pub Y.self.pub)
+      let verdict := match impl with
+        | none => "ok"
+        | some i =>
+          match field i "okX", field i "okY", field i "kX", field i "kY" with
+          | some okX, some okY, some ikX, some ikY =>
+            if okX == "1" && okY == "1" && ikX != ikY then "viol:key-mismatch"
+            else if okX == "1" && ikX != current then "viol:key-stale:X does not hold the key derived from the current public keys"
+            else if okY == "1" && ikY != current then "viol:key-stale:Y does not hold the key derived from the current public keys"
+            else if okX != b01 rX.2 || okY != b01 rY.2 then "viol:accept"
+            else "ok"
+          | _, _, _, _ => "viol:malformed"
+      some ((st.set x rX.1).set y rY.1, out, verdict)
+    | _, _ => none
+  | ["hs", x, peer, pub, nonce] =>
+    match st.find x, pub.toNat?, nonce.toNat? with
+    | some X, some pub, some nonce =>
+      let pub := u32 pub
+      let r := performHandshakeSt sha hmac X st.tick (idBytes peer) pub nonce
+      let k := r.1.sessionKeyOf (idBytes peer)
+      let out := s!"ok={b01 r.2} k={keyStr k}"
+      let verdict := match impl with
+        | none => "ok"
+        | some i =>
+          if field i "ok" != some (b01 r.2) then "viol:accept"
+          else if r.2 && field i "k" != some (hexB (sessionKey sha hmac X.self.scalar X.self.pub pub)) then
+            "viol:key-stale:the held key is not the one derived from the handshake just accepted"
+          else "ok"
+      some (st.set x r.1, out, verdict)
+    | _, _, _ => none
+  | ["key", x, peer] =>
+    match st.find x with
+    | some X => some (st, s!"k={keyStr (X.sessionKeyOf (idBytes peer))}", "ok")
+    | none => none
+  | _ => none
+
+def stepPure (tok : List String) (impl : Option String) : Unit × String × String :=
   let bad : Unit × String × String := ((), "bad-op", "ok")
   match tok with
   | ["modexp", b, e, m] =>
@@ -172,7 +247,19 @@ def step (_ : Unit) (tok : List String) (_line : String) (impl : Option String) 
     | _, _, _, _ => bad
   | _ => bad
 
-def machine : Machine Unit := { init := (), step := step }
+def step (st : St) (tok : List String) (_line : String) (impl : Option String) : St × String × String :=
+  match tok with
+  | op :: _ =>
+    if op == "node" || op == "mutual" || op == "hs" || op == "key" then
+      match stepHistory st tok impl with
+      | some r => r
+      | none => (st, "bad-op", "ok")
+    else
+      let (_, o, v) := stepPure tok impl
+      (st, o, v)
+  | [] => (st, "bad-op", "ok")
+
+def machine : Machine St := { init := {}, step := step }
 
 end EphVerif.DriverC12
 
